@@ -83,6 +83,9 @@ fn slow_best(cards: &[Card]) -> (u16, u32) {
 
 /// Case kinds: "<six|seven>.<value entry>" (C02) and "<five|six|seven>.witness" (C03).
 pub fn judge(case: &Case) -> Verdict {
+    if case.kind.starts_with("history.") {
+        return super::history::judge(case);
+    }
     let w = case.w32s();
     let (size, entry) = match case.kind.split_once('.') {
         Some(x) => x,
@@ -361,6 +364,8 @@ fn run_mode(ctx: &Ctx, rep: &mut Report, mode: Mode) {
 
 pub fn run_c02(ctx: &Ctx, rep: &mut Report) {
     run_mode(ctx, rep, Mode::Value);
+    super::history::space(rep, 6, false, ctx.tier.thorough());
+    super::history::space(rep, 7, false, ctx.tier.thorough());
     rep.rule = "distinct (hand, slot order) pairs; non-trivial = the best five-card hand is not the one in the first five canonical slots (so the search over slot combinations matters)".into();
     rep.bound = if ctx.tier.thorough() {
         "six cards: complete (all subsets x all 720 orders). seven cards: all subsets x the 21 orders of P7 (every 5-sub-hand on every slot combination), plus all 5,040 orders on two 24-card sub-decks; the remaining orders of the remaining hands are outside".into()
@@ -371,6 +376,9 @@ pub fn run_c02(ctx: &Ctx, rep: &mut Report) {
 
 pub fn run_c03(ctx: &Ctx, rep: &mut Report) {
     run_mode(ctx, rep, Mode::Witness);
+    for n in 5..=7 {
+        super::history::space(rep, n, true, ctx.tier.thorough());
+    }
     // identity clause: 5H x 120 orders
     let d = deck();
     let perms: Vec<Vec<usize>> = permutations(5);
@@ -398,7 +406,7 @@ pub fn run_c03(ctx: &Ctx, rep: &mut Report) {
                             if let Some(v) = confirm(judge, Case::w32("five.witness", &arr)) {
                                 acc.violate(v);
                             } else {
-                                monitor::machinery_fail("five.witness fast path mismatch not reproduced");
+                                super::unreproduced("five.witness fast path mismatch not reproduced");
                             }
                         }
                         if arr != w {
